@@ -512,6 +512,49 @@ fn corpus_case(k: u64) -> Option<(Vec<u8>, Vec<String>)> {
             let m = wf_variant(29);
             Some((enc(&m), note("corpus: the hand-built module with a vendor section and without optional sections")))
         }
+        30..=33 => {
+            // zero-length section entries must pass the same alignment / bounds checks
+            let mut b = enc(&m);
+            let len = b.len() as u32;
+            let e = 24 + 12 * (m.sections.len() - 1);
+            let off = match k {
+                30 => len + 4,      // aligned, past the end
+                31 => len + 2,      // unaligned, past the end
+                32 => 26,           // unaligned, inside
+                _ => u32::MAX - 3,  // aligned, far past the end
+            };
+            b[e + 4..e + 8].copy_from_slice(&off.to_le_bytes());
+            b[e + 8..e + 12].copy_from_slice(&0u32.to_le_bytes());
+            fix_crc(&mut b);
+            Some((b, vec![format!("corpus: zero-length last section at offset {off}")]))
+        }
+        34..=38 => {
+            // duplicated sections: validate, metadata and apply all read the FIRST one of an id
+            let id = match k {
+                34 | 35 => SectionId::ResourceMeta,
+                36 => SectionId::StringTable,
+                37 => SectionId::RefTable,
+                _ => SectionId::PouIndex,
+            };
+            let mut dup = m.sections.iter().find(|s| s.id == id.as_raw()).cloned()?;
+            match &mut dup.data {
+                SectionData::ResourceMeta(r) => {
+                    r.resources[0].inputs_size = if k == 34 { u32::MAX } else { 7 };
+                    r.resources[0].tasks.clear();
+                    r.resources.truncate(1);
+                }
+                SectionData::StringTable(t) => t.entries.truncate(1),
+                SectionData::RefTable(t) => t.entries.clear(),
+                SectionData::PouIndex(t) => t.entries.truncate(1),
+                _ => {}
+            }
+            if k == 35 {
+                m.sections.insert(0, dup); // the altered copy first
+            } else {
+                m.sections.push(dup); // the altered copy last
+            }
+            Some((enc(&m), vec![format!("corpus: duplicated section {id:?} (variant {k})")]))
+        }
         _ => None,
     }
 }
@@ -559,7 +602,7 @@ fn built_answer(k: u64) -> String {
     r.unwrap_or_else(|_| "panic".into())
 }
 
-const CORPUS: u64 = 30;
+const CORPUS: u64 = 39;
 /// one case per opcode byte: the program body is `[op, 0 × 8, RET]`
 const SWEEP: u64 = 256;
 
@@ -596,6 +639,8 @@ struct Bases {
     sites: Vec<(&'static str, usize)>,
     /// (site, position, host, with debug info) of the deterministic rollback programs
     rollback: Vec<(usize, usize, usize, bool)>,
+    /// (type, place, with initial value) of the deterministic declaration programs
+    decls: Vec<(usize, usize, bool)>,
 }
 
 enum Compiled {
@@ -663,6 +708,32 @@ fn rollback_list(level: usize) -> Vec<(usize, usize, usize, bool)> {
                 }
                 if level >= 2 || (name == "last" && host % 2 == 0) {
                     v.push((site, pos, host, false));
+                }
+            }
+        }
+    }
+    v
+}
+
+/// The deterministic block of declaration programs (gen_st::decl_program): one declaration of one type
+/// in one place.  level 1 (quick): every type as `global` with and without initial value, and every
+/// type x every other place with initial value where there is one; level 2: everything.
+/// String-typed input defaults (finding C11-string-default-param, fixed in c48da62) are part of it.
+fn decl_list(level: usize) -> Vec<(usize, usize, bool)> {
+    let mut v = Vec::new();
+    for ty in 0..gen_st::DECL_TYPES.len() {
+        for place in 0..gen_st::DECL_PLACES.len() {
+            for init in [true, false] {
+                let has_init = !gen_st::DECL_TYPES[ty].1.is_empty();
+                if init && !has_init {
+                    continue; // identical to the program without initial value
+                }
+                let global = gen_st::DECL_PLACES[place] == "global";
+                // quick: globals both ways; other places alternate by parity so that every (type, place) pair occurs
+                if level >= 2 || global || init == ((ty + place) % 2 == 0) || !has_init
+                    || gen_st::decl_hits_string_default(ty, place, init)
+                {
+                    v.push((ty, place, init));
                 }
             }
         }
@@ -764,6 +835,48 @@ fn gen_case(n: u64, seed: u64, bases: &Bases, out: &mut Out) -> CaseSpec {
                 built: None,
             },
         };
+    }
+    // declaration programs, deterministic
+    let base = bases.sites.len() * SITE_VALUES + bases.rollback.len();
+    if (k as usize) >= base && (k as usize) - base < bases.decls.len() {
+        let (ty, place, init) = bases.decls[k as usize - base];
+        let (name, source) = gen_st::decl_program(ty, place, init);
+        let debug = (ty + place) % 3 != 0;
+        let note = format!("decl {name} debug={}", debug as u8);
+        return match compile_source(&source, vec!["decl"], debug, out) {
+            Some(c) => emitted_case(c, "emitted-decl", note, (ty + place) % 4 == 0, out),
+            None => CaseSpec {
+                kind: "emit-failed",
+                notes: vec![note, "the front end rejected a declaration program".into()],
+                bytes: Vec::new(),
+                runtime_source: source,
+                resource: "none".into(),
+                emitted: None,
+                emit_failed: Some("front-end-rejected".into()),
+                built: None,
+            },
+        };
+    }
+    // the witness of the known finding C11-string-default-param (reported by checks/c11.py, not compared)
+    if (k as usize) == base + bases.decls.len() {
+        let source = gen_st::STRING_DEFAULT_WITNESS;
+        let result = match compile_source(source, vec![], true, out) {
+            Some(Compiled::Ok(..)) => "compiles".to_string(),
+            Some(Compiled::EmitFailed(_, e)) => format!("encoder-{e}").replace(' ', "-"),
+            None => "front-end-rejected".to_string(),
+        };
+        let mut spec = CaseSpec {
+            kind: "known-witness",
+            notes: vec![format!("C11-string-default-param result={result}")],
+            bytes: corpus_case(0).expect("corpus 0").0,
+            runtime_source: simple,
+            resource: "none".into(),
+            emitted: None,
+            emit_failed: None,
+            built: None,
+        };
+        spec.notes.push(format!("src={}", hex(source.as_bytes())));
+        return spec;
     }
     let mut rng = Rng::for_case(seed, n);
     let resource = match rng.below(10) {
@@ -907,6 +1020,30 @@ pub fn run(args: &Args) -> i32 {
     if let Some(path) = args.extra.get("src") {
         return probe(path, args.extra.contains_key("nodebug"));
     }
+    if args.extra.contains_key("decl-probe") {
+        // developer tool: which declaration programs does the front end accept
+        let mut out = Out::new();
+        for ty in 0..gen_st::DECL_TYPES.len() {
+            for place in 0..gen_st::DECL_PLACES.len() {
+                for init in [true, false] {
+                    let (name, source) = gen_st::decl_program(ty, place, init);
+                    let r = match compile_source(&source, vec![], true, &mut out) {
+                        None => match TestHarness::from_source(&source) {
+                            Err(e) => format!("FRONT-END {}", format!("{e}").replace('\n', " ")),
+                            Ok(_) => "?".into(),
+                        },
+                        Some(Compiled::EmitFailed(_, e)) => format!("ENCODER {e}"),
+                        Some(Compiled::Ok(m, _, _)) => {
+                            let bytes = m.encode().expect("encode");
+                            emitted_answer(&m, &bytes)
+                        }
+                    };
+                    println!("{name}: {r}");
+                }
+            }
+        }
+        return 0;
+    }
     if args.extra.contains_key("rollback-probe") {
         // developer tool: which rollback programs does the front end accept, what does the oracle say
         for site in 0..gen_st::ROLLBACK_SITES.len() {
@@ -954,7 +1091,9 @@ pub fn run(args: &Args) -> i32 {
     out.add("site-sweep-sites", sites.len() as u64);
     let rollback = rollback_list(args.extra_usize("rollback-level", 1));
     out.add("rollback-programs", rollback.len() as u64);
-    let mut bases = Bases { emitted: Vec::new(), sweep_module, sites, rollback };
+    let decls = decl_list(args.extra_usize("decl-level", 1));
+    out.add("decl-programs", decls.len() as u64);
+    let mut bases = Bases { emitted: Vec::new(), sweep_module, sites, rollback, decls };
     let mut brng = Rng::for_case(args.seed, u64::MAX);
     for _ in 0..4 {
         if let Some(Compiled::Ok(m, source, _)) = compile(&mut brng, &mut out) {
